@@ -22,7 +22,7 @@ ASSUMPTIONS = [
     'platform BOM table (utf-16, utf-32, utf-8-sig) stated in Tie/Boms.lean is checked against CPython here',
 ]
 VALUE_RE = re.compile(r'[A-Za-z0-9/._-]+')
-TEXTS = ['abc', '\ufeffstarts with U+FEFF\nline two', 'line one\nline two\n', 'dos\r\nline\r\n', 'x']
+TEXTS = ['abc', '\ufeffstarts with U+FEFF\nline two', 'one\n  two, indented\n\n three', 'line one\nline two\n', 'dos\r\nline\r\n', 'x']
 
 
 def catalogue():
@@ -215,6 +215,15 @@ def roundtrip_check(cat, outside, ntexts, rng):
                     if recs[1].get('text') != want:
                         vios.append({'what': 'text read back under spelling %r is %r, expected %r' % (s, recs[1].get('text'), want),
                                      'spelling': s, 'text': text, 'le': le})
+                    # the layout itself: the text encoded once, split on the BOM-free newline of the
+                    # codec, every line indented by ASCII spaces
+                    nlb = specdoc.nl0(s, nl == '\r\n')
+                    body = b''.join(b'  ' + l for l in specdoc.split_keep(want.encode(s), nlb))
+                    at = data.find(b'\n', data.find(b'\n') + 1) + 1
+                    if data[at:at + len(body) + 8] != body + b'#.change':
+                        vios.append({'what': 'preamble bytes under spelling %r are %r, expected the text encoded once and split / '
+                                     'indented on the BOM-free newline %r: %r' % (s, data[at:at + len(body) + 8][:80], nlb, body[:80]),
+                                     'spelling': s, 'text': text, 'le': le})
                     if recs[4].get('metadata') != {'k': 'v'}:
                         vios.append({'what': 'metadata read back under spelling %r differs' % s, 'spelling': s, 'text': text, 'le': le})
                     key = (text, le)
@@ -338,9 +347,9 @@ def explore(ctx, escalate=False, hint=None):
             '(model vs implementation vs BOM-free encoding computed without the BOM table), writer->reader round trip '
             'x %d texts x {unset,unix,dos} with byte equality across spellings of one codec; the concrete Lean codecs of '
             'Model/Codecs.lean against CPython (canonical name, strict encode / decode); distinct by (op, spelling, arg)'
-            % (len(cat), nspell, json.dumps(outside, sort_keys=True), len(TEXTS) if thorough else 2))
+            % (len(cat), nspell, json.dumps(outside, sort_keys=True), len(TEXTS) if thorough else 3))
     res = base.explore_generic(ctx, spec, None, rule, exhaustive=True, chunk=3000)
-    n, vios = roundtrip_check(cat, outside, len(TEXTS) if thorough else 2, rng)
+    n, vios = roundtrip_check(cat, outside, len(TEXTS) if thorough else 3, rng)
     res['evaluations'] += n
     res['violations'] += vios[:30]
     # platform BOM table stated in Tie/Boms.lean
